@@ -72,6 +72,10 @@ let () =
       (match parse (bytes_of_hex pkt) with
        | POk (a, h, p) -> Printf.printf "OK %s %s %s %s %s\n" (hex_of_bytes a.fqdn) (hex_of_bytes a.ip) (dec_of_n a.port) (hex_of_bytes h) (render p)
        | PErr e -> print_endline ("ERR " ^ perr_s e))
+    | ["A"; p1; p2] ->
+      (match parse (bytes_of_hex p1), parse (bytes_of_hex p2) with
+       | POk (_, h1, _), POk (_, h2, _) -> print_endline (hex_of_bytes h1 ^ " " ^ hex_of_bytes h2)
+       | _ -> print_endline "ERR")
     | ["B"; f; i; p; pl] ->
       (match build_dgram { fqdn = bytes_of_hex f; ip = bytes_of_hex i; port = n_of_dec p } (bytes_of_hex pl) with
        | Some pkt -> print_endline ("OK " ^ render pkt) | None -> print_endline "ERR")
